@@ -2,22 +2,36 @@
 
 Protocol (one self-contained history per line, a fresh simulation each time):
 
-    sin <defUnit> <absent|dispatch|divide> <num|int> <count> <op> <op> ...
-        S|<period>|<mode>|<v1;v2;...>   Simulation.set_input        -> ok | ERR
-        G|<period>                      Simulation.get_array        -> v1;v2;... | none
-        A|<period>                      Simulation.calculate_add    -> v1;v2;... | empty | ERR
-        K                               every known period + value  -> [p=v1;..&p=...] (sorted)
+    sin <defUnit> <absent|dispatch|divide> <kind>[:<opt>...] <count> <op> <op> ...
+        kind: num | int | bool | date | str | enum     (items of the last four travel as integer codes)
+        opt : n neutralised variable | e<Y,M,D> the variable's `end` | d every array forced to the disk storage
+              | b the leading S ops are given at once, as a situation document, to SimulationBuilder
+        S|<period>|<mode>|<v1;v2;...>   Simulation.set_input              -> ok | ERR
+        H|<period>|<mode>|<v1;v2;...>   Holder.set_input directly         -> ok | ERR
+        G|<period>[|<spelling>]         Simulation.get_array              -> v1;v2;... | none
+        A|<period>[|<spelling>]         Simulation.calculate_add          -> v1;v2;... | empty | ERR
+        K                               every known period + value        -> [p=v1;..&p=...] (sorted)
 
-`<mode>` is how the values reach the real code: f list of Python floats, i list of Python ints,
-t / u tuples of floats / ints, F float64 array, I int64 array, g float32 array (exactly the dtype
-of a float variable), j int32 array (exactly the dtype of an int variable). `<mode>@<k>` passes the
-caller's object number `k`: built from the values at its first use, then THE SAME OBJECT is passed
-again as it then is (the values in the token are what the caller put into it). The model ignores
-the mode: an argument is an input, never scratch space. After every `set_input` the adapter
-compares the caller's object with a snapshot taken before the call; when it changed the answer is
-`ok!<content now>` / `ERR!<content now>`, which the oracle reports as `caller-array-mutated`.
-Values are exact rationals; the generator keeps every amount, partial sum and share on the
-quarter-unit lattice below 2**20, where float32 arithmetic is exact (DESIGN section 4).
+`<mode>` = `<container>[@<k>][~<spelling>]`. Containers, i.e. how the values reach the real code: f / i lists
+of Python floats / ints, t / u tuples, F float64, I int64, g float32 (exactly the dtype of a float variable),
+j int32 (exactly the dtype of an int variable) arrays; s one expression string ("600*2"), x one Python scalar,
+X one 0-dim array (a single entity's value); z items that are no values of the variable's type; for the other
+value types l list of items, a array of exactly the variable's dtype, N names / ISO texts, I integer codes.
+`@<k>` passes the caller's object number `k`: built from the values at its first use, then THE SAME OBJECT is
+passed again as it then is (the values in the token are what the caller put into it). `~<spelling>` / the
+third field of G and A give the period as a Period object (p), its text (s) or the bare year (i). The model
+ignores the mode: an argument is an input, never scratch space. After every `set_input` the adapter compares
+the caller's object with a snapshot taken before the call; when it changed the answer is `ok!<content now>` /
+`ERR!<content now>`, which the oracle reports as `caller-array-mutated`.
+
+The harness itself NEVER mutates an object it has passed, nor an array it got back: at HEAD `_to_array` hands
+on an array that already has the variable's dtype and `_set` stores it, so for the dispatch rule and for
+variables without rule the stored arrays ARE the caller's object (and all pieces share one array). What a
+later mutation by the caller does to the stored values is outside the statement (it speaks of values that
+were set), so the check neither exercises nor judges it.
+
+Values are exact rationals; the generator keeps every amount, partial sum and share on the quarter-unit
+lattice below 2**20, where float32 arithmetic is exact (DESIGN section 4).
 """
 from __future__ import annotations
 
@@ -367,7 +381,8 @@ def impl(case: Case) -> str:
                 items = []
                 for k in sim.get_known_periods(name):
                     pp = (str(k[0].value if hasattr(k[0], "value") else k[0]), tuple(k[1]), k[2])
-                    items.append((_key(pp), ptok(pp) + "=" + _show_arr(holder.get_array(k), kind)))
+                    arr = holder.get_array(k)
+                    items.append((_key(pp), ptok(pp) + "=" + ("?missing" if arr is None else _show_arr(arr, kind))))
                 items.sort()
                 out.append("[" + "&".join(x for _, x in items) + "]")
     finally:
@@ -439,7 +454,7 @@ def _parse_snapshot(ans):
     if body:
         for item in body.split("&"):
             k, v = item.split("=")
-            st[k] = [Fraction(x) for x in v.split(";")]
+            st[k] = None if v == "?missing" else [x if x.startswith("?") else Fraction(x) for x in v.split(";")]
     return st
 
 
@@ -480,6 +495,9 @@ def oracle(case: Case, out: str):
     for idx, (op, ans) in enumerate(zip(ops, answers)):
         if op[0] == "K":
             state = _parse_snapshot(ans)
+            lost = [t for t, v in (state or {}).items() if v is None]
+            if lost:
+                return ("known-period-without-value", f"{lost[0]} is listed among the known periods but get_array returns nothing for it")
             continue
         if op[0] == "G":
             continue
@@ -806,7 +824,7 @@ def history(rng: random.Random, tier: str):
         if rng.random() < 0.5:
             steps = decorate(rng, du, kind, count, steps)
         kopt = kind
-        if n <= 40 and rng.random() < 0.06:
+        if n <= 40 and rng.random() < 0.04:
             kopt += ":d"                      # every array forced to the disk storage
         out.append(build_line(du, rule, kopt, count, steps, tags=tags + [oname]))
     return out
@@ -1053,11 +1071,12 @@ def week_family_history(rng: random.Random):
     hi = addm(lo, 12 * P[2]) if P[0] == "year" else addm(lo, P[2]) if P[0] == "month" else \
         lo + dt.timedelta(days=(7 if P[0] == "week" else 1) * P[2])
     pieces = -(-(hi - lo).days // 7) if du == "week" else (hi - lo).days
-    v = [pieces * Fraction(rng.randint(0, 12)) for _ in range(count)]
     q = (du, P[1], 1)
     steps = []
-    if rng.random() < 0.4:
+    if pieces > 1 and rng.random() < 0.4:
         steps += [("S", q, "f", [Fraction(0)] * count), ("K",)]
+        pieces -= 1
+    v = [pieces * Fraction(rng.randint(0, 12)) for _ in range(count)]
     steps += [("S", P, "f", v), ("K",), ("A", P), ("K",)]
     return build_line(du, rule, "num", count, steps, claimed=False, tags=("unclaimed", "week-family", f"{P[0]}>{du}"))
 
@@ -1123,11 +1142,12 @@ MALFORMED = [
     "sin month divide num 1 S|month/2018,1,1/1|f|a", "sin month divide num 1 S|month/2018,1,1/1|f|1/0",
     "sin month divide num 1 S|month/2018,1,1/1|f|3; K", "sin month divide num 1 G|month/2018,1,1", "sin month divide num 1 K|x",
     "sin month divide num 1 A|quarter/2018,1,1/1", "sin month divide num 2 S|month/2018,1,1/x|f|3;4",
+    "sin month divide num:q 1 K", "sin month divide num:e2018,6 1 K", "sin month divide complex:n 1 K", "sin month divide num 1 G|month/2018,1,1/1|s|s",
 ]
 
 
 def generate(rng: random.Random, tier: str):
-    n = 9000 if tier == "quick" else 100000
+    n = 6000 if tier == "quick" else 100000
     out = []
     for _ in range(n):
         out += history(rng, tier)
@@ -1169,6 +1189,13 @@ def corpus():
                                                  ("A", Y18), ("A", ("year", (2019, 1, 1), 1))], tags=("corpus", "seeded-C16-3")),
         build_line("month", "divide", "int", 1, [("S", ("month", (2018, 3, 1), 1), "i", [F(11)]), ("K",),
                                                  ("S", Y18, "j@1", [F(132)]), ("K",), ("A", Y18)], tags=("corpus", "seeded-C16-3")),
+        # entry points and spellings: expression string, period as text / int, holder entry, builder, end, neutralised, disk
+        build_line("month", "divide", "num", 1, [("S", feb, "s~s", [F(600)]), ("K",), ("H", Y18, "x~i", [F(1700)]), ("K",), ("A", Y18, "s")], tags=("corpus",)),
+        build_line("month", "divide", "num:b", 2, [("S", feb, "f", [F(5), F(8)]), ("S", Y18, "f", [F(27), F(30)]), ("K",), ("A", Y18)], tags=("corpus",)),
+        build_line("month", "divide", "num:e2018,6,30", 1, [("S", ("year", (2019, 1, 1), 1), "f", [F(12)]), ("K",), ("S", Y18, "f", [F(24)]), ("K",), ("A", Y18)], tags=("corpus",)),
+        build_line("month", "dispatch", "num:n", 1, [("S", Y18, "f", [F(24)]), ("K",), ("G", feb), ("A", Y18)], tags=("corpus",)),
+        build_line("month", "divide", "num:d", 1, [("S", feb, "g", [F(5)]), ("K",), ("S", Y18, "g", [F(27)]), ("K",), ("A", Y18)], tags=("corpus",)),
+        build_line("month", "dispatch", "enum", 2, [("S", feb, "N", [F(1), F(4)]), ("K",), ("S", Y18, "l", [F(2), F(0)]), ("K",)], tags=("corpus",)),
         # the situations of tests/core/test_holders.py and their day-level / leap / rolling analogues
         build_line("month", "divide", "num", 1, [("S", Y18, "f", [F(12000)]), ("K",), ("A", Y18)], tags=("corpus",)),
         build_line("month", "divide", "num", 1, [("S", ("month", (2018, 12, 1), 1), "f", [F(1000)]), ("K",), ("S", Y18, "f", [F(12000)]), ("K",), ("A", Y18)], tags=("corpus",)),
@@ -1257,13 +1284,20 @@ PROP = Prop(
           "set_input the caller's own object is compared with a snapshot taken before the call and the whole store is read back, then "
           "calculate_add over every long period. One history in six keeps ONE caller object and passes it for 2-3 consecutive long periods "
           "(pieces pre-set with non-zero values inside one of them). "
+          "Half of the histories are re-spelled: periods as text / bare year, inputs given to Holder.set_input directly, a single entity's value as a "
+          "scalar / 0-dim array / expression string; 4 % of the short ones run with every array forced to the disk storage. Further streams: bool / date / "
+          "str / enum variables with the dispatch rule (items as lists, exact-dtype arrays, names, codes); variables with an `end` placed before / at the "
+          "first day / inside / at the last day / after the long period (inputs through Simulation.set_input and Holder.set_input); situation documents "
+          "consumed by SimulationBuilder (buffered inputs, shortest first, with and without `end`); neutralised variables; items `_to_array` cannot "
+          "convert and scalars for several entities (refused). "
           "Plus variables without rule (routing errors, binding) and a non-binding stream (week/weekday/eternity variables, unaligned or shorter periods, wrong length, ADD first) and "
           "malformed lines. Non-trivial = at least one accepted input on a period longer than the definition period."),
     assumptions=[
         "numeric policy (DESIGN section 4): amounts, partial sums and shares are multiples of 1/4 below 2**20, so the code's float32 arithmetic is exact; rounding, int32 overflow, NaN are modelled, not verified",
         "claim domain: day/month/year variables with the divide or dispatch rule, periods of the day/month/year family aligned on the definition period (years and months start on the 1st; year variables on 1 January), sizes >= 1, years < 9990; variables without rule are binding for the correspondence only (refusal of anything but one definition period); week-family and eternal variables, unaligned or shorter periods, wrong lengths are compared but not binding",
         "the walk stopping early at year 9999 (pendulum overflow in the middle of the dispatch loop) leaves a partially filled store in the code and an unchanged one in the model; not generated",
-        "variables are not neutralised, have no `end` date and no formula; inputs are not strings; memory_config is None (no on-disk storage)",
+        "variables have no formula; neutralised variables and inputs that start after a variable's `end` are binding for the correspondence only (the input is ignored: the statement does not speak of them); on-disk storage is run through but not modelled (it is not observable)",
+        "the harness never mutates an object it passed or an array it got back: aliasing of stored arrays with the caller's exact-dtype array (dispatch rule, variables without rule) is outside the statement",
         "numpy conversions (asarray/astype, float32 true division, in-place subtract, sum of arrays) and pendulum date arithmetic are modelled, tied by this correspondence",
     ],
     partial_theorems=[
